@@ -1,12 +1,19 @@
 """C10 - metadata serialisation is lossless, IDL-conformant and safe for any size.
 
 Explorer L.  Values are generated from the IDL table for every struct reachable
-from FileMetaData and PageHeader.  Two routes:
+from FileMetaData and PageHeader.  Routes:
   R1  built through ThriftObject.from_fields with the writer's i32 markers
+      (R1b: every string given as bytes, as the writer does for names and keys)
   R2  encoded by specpq from the IDL, parsed by from_buffer, re-serialised
+      (R2l / R2L: the same value with long-form list / field headers, which
+      other writers may emit; at an offset of a larger buffer; from bytes)
+  R3  the structures of files the writer produces (options included)
+  history: parsed / built, then changed through the attribute API as merge,
+      append and update_custom_metadata do, then serialised
 Oracle: strict IDL-driven decode of to_bytes(x) yields x; same length as the
-spec encoding; from_buffer(to_bytes(x)) == x (own deep comparison and ==);
-pickle round trip.
+spec encoding; from_buffer(to_bytes(x)) == x (own deep comparison and ==) and
+consumes exactly the struct; pickle / copy / deepcopy; every value differing
+in one place compares unequal in both directions; None == absent.
 """
 import itertools
 
@@ -15,14 +22,31 @@ LEVEL = "exploration"
 FLAVOUR = "plain"
 TIMEOUT = 120
 RULE = ("R3: every footer and page header of files written for each column kind x v1/v2 x codec x null pattern x "
-        "simple/hive, decoded strictly; points = (route R1|R2) x (struct reachable from FileMetaData/PageHeader) x (presence pattern: every "
+        "simple/hive, decoded strictly, a write that raises or a footer that does not end where its length says is a "
+        "failure, num_rows / num_values / custom key-values / file_path compared with what was written; x option in "
+        "{base, stats=False, append, partition_on, non-ASCII custom metadata, make_part_file(fmd=None)} (options at "
+        "codec None in the quick tier); points = (route R1|R2) x (struct reachable from FileMetaData/PageHeader) x (presence pattern: every "
         "subset of optional fields for structs with <= 6 optional fields, else none/all/each single/each pair) "
         "+ per-field special values (list lengths 0,1,2,14,15,16,300; string lengths 0,1,127,128,16383,16384; "
-        "integer extremes of the declared width) + FileMetaData nestings r x c x k + large payloads "
-        "(499000..2000000 bytes, each in a fresh process); non-trivial = the struct has >= 1 field set and "
-        "its serialisation was decoded and compared")
+        "integer extremes of the declared width, i8 also -1 and -128) + for the full presence pattern and every union "
+        "member also routes R2l (long-form list headers), R2L (long-form field headers; quick: highest member of a "
+        "union), R1b (strings as bytes) + FileMetaData nestings r x c x k + large payloads "
+        "(499000..2000000 bytes at stat_max, kv_value, path, created_by; 498000/510000 bytes as non-ASCII str key-value "
+        "and as column-level key-value; each in a fresh process) + aggregate shapes r x c x statistics bytes + name "
+        "length (AGG_QUICK / AGG_THOROUGH: many medium payloads, schema-only footers, 6000 chunks) + history: shape "
+        "(r,c,k) in {(1,1,0),(1,3,1),(3,3,3)} x op in HIST_OPS x (R1|R2) on a FileMetaData carrying fields fastparquet "
+        "never writes, + update_file_custom_metadata / merge on foreign files + extension: unknown field id {12,15} x "
+        "16 wire-type payloads inside schema elements; every R2 value is also parsed at an offset of a larger buffer "
+        "(position afterwards checked) and from bytes; every non-big point: copy/deepcopy serialise identically, each "
+        "one-place neighbour (changed leaf / shorter list / optional field removed, per top-level field) is != in "
+        "both directions, R1: None for absent fields is the same structure; non-trivial = the struct has >= 1 field "
+        "set and its serialisation was decoded and compared")
 ASSUMPTIONS = ["the pinned parse of parquet.thrift is the IDL", "specpq compact-protocol codec is the specification",
-               "R1 covers the fields whose integer width the writer's i32/i32list markers can express"]
+               "R1 covers the fields whose integer width the writer's i32/i32list markers can express",
+               "== between a structure holding bytes elements in a string list and its parsed form (str elements) "
+               "is not required (R1b)",
+               "structures changed through the attribute API may mix str and bytes: == with the re-parsed form is "
+               "required in one direction only, as for R1"]
 
 ROOTS = ["FileMetaData", "PageHeader"]
 MARKERS = {"SchemaElement": ("i32", None), "PageHeader": ("i32", None), "DataPageHeader": ("i32", None),
@@ -128,7 +152,7 @@ def minimal_value(I, sname):
 def special_values(I, typ):
     if typ in INTW:
         b = INTW[typ]
-        return [0, 1, -1, (1 << (b - 1)) - 1, -(1 << (b - 1))] if b > 8 else [0, 1, 127]
+        return [0, 1, -1, (1 << (b - 1)) - 1, -(1 << (b - 1))] if b > 8 else [0, 1, 127, -1, -128]
     if typ in ("binary", "string"):
         out = []
         for n in (0, 1, 127, 128, 16383, 16384):
@@ -169,6 +193,22 @@ def struct_points(I, tier):
             q = dict(p)
             q["route"] = route
             out.append(q)
+    # R2l: the same bytes with every list header in the long form (legal for any size)
+    # R2L: every field header in the long form (type byte + zigzag id; mandatory for id deltas > 15);
+    #      a parser that loses its place only reads: the bytes are followed by 64 KB of stop bytes (see run)
+    # R1b: built through from_fields with every string given as bytes (as the writer does for names / keys)
+    for p in pts:
+        full = p["kind"] == "union" or (p["kind"] == "presence" and len(p["present"]) == len(
+            [1 for f in I["structs"][p["struct"]]["fields"].values() if f[1] != "required"]))
+        if not full or not I["structs"][p["struct"]]["fields"]:
+            continue
+        for route in ("R2l", "R2L", "R1b"):
+            if route == "R2L" and p["kind"] == "union" and tier != "thorough" and \
+                    p["member"] != I["structs"][p["struct"]]["fields"][max(I["structs"][p["struct"]]["fields"])][0]:
+                continue      # quick: of a union only the member with the highest id (largest delta)
+            q = dict(p)
+            q["route"] = route
+            out.append(q)
     return out
 
 
@@ -191,7 +231,59 @@ def big_points(tier):
         for n in sizes:
             for route in ("R1", "R2"):
                 pts.append({"kind": "big", "where": where, "n": n, "route": route, "_fresh": True})
+    # n = encoded bytes; kv_value_utf8: a str of n/3 three-byte characters (the buffer estimate counts characters);
+    # col_kv_value: ColumnMetaData.key_value_metadata (not part of the estimate)
+    usizes = (498000, 510000, 1998000) if tier == "thorough" else (498000, 510000)
+    for where in ("kv_value_utf8", "col_kv_value"):
+        for n in usizes:
+            if where == "col_kv_value" and n < 500000 and tier != "thorough":
+                continue
+            for route in ("R1", "R2"):
+                if route == "R2" and n < 500000 and tier != "thorough":
+                    continue
+                pts.append({"kind": "big", "where": where, "n": n, "route": route, "_fresh": True})
     return pts
+
+
+AGG_QUICK = [(30, 20, 600, 0), (120, 50, 8, 0), (0, 6000, 0, 100)]
+AGG_THOROUGH = AGG_QUICK + [(30, 20, 100, 0), (0, 600, 0, 100), (300, 100, 8, 0), (1, 2000, 200, 100), (400, 1, 1500, 0)]
+
+
+def agg_points(tier):
+    """many medium payloads, none above the 500000-byte floor: r row groups x c columns with min/max of `stat`
+    bytes each and column names of `name` extra characters (r = 0: schema-only footer as in _common_metadata)"""
+    pts = []
+    for r, c, stat, name in (AGG_THOROUGH if tier == "thorough" else AGG_QUICK):
+        for route in ("R1", "R2"):
+            pts.append({"kind": "agg", "r": r, "c": c, "stat": stat, "name": name, "route": route, "_fresh": True,
+                        "shape": "%dx%dx%d+%d" % (r, c, stat, name)})
+    return pts
+
+
+HIST_OPS = ["copy", "deepcopy", "sub_rgs", "file_path_copy", "file_path_alias", "kv_update", "append_r1",
+            "set_schema", "del_created_by", "none_created_by"]
+
+
+def hist_points(tier):
+    """history: a foreign-looking FileMetaData (fields fastparquet never writes included) is parsed (R2) or built
+    (R1), changed through the attribute API the way merge / append / metadata update do, then serialised"""
+    shapes = [(1, 1, 0), (1, 3, 1), (3, 3, 3)] + ([(3, 1, 3), (40, 3, 3)] if tier == "thorough" else [])
+    pts = []
+    for r, c, k in shapes:
+        for op in HIST_OPS:
+            for route in ("R1", "R2"):
+                pts.append({"kind": "hist", "r": r, "c": c, "k": k, "op": op, "route": route})
+    return pts
+
+
+EXT_WIRES = ["i64", "i16", "i8_neg", "double", "binary", "struct", "list_i64", "list_binary_nonutf8", "list_struct",
+             "list_bool", "list_double", "list_i8", "list_list", "set_i32", "map_empty", "map_i32_binary"]
+
+
+def ext_points(tier):
+    """footers of newer writers: a field id the pinned IDL does not know (short-form header), carrying each compact
+    wire type, inside the elements of a struct list; the known fields around it must parse unchanged"""
+    return [{"kind": "ext", "wire": w, "uid": uid, "route": "R2"} for w in EXT_WIRES for uid in (12, 15)]
 
 
 def written_points(tier):
@@ -202,7 +294,16 @@ def written_points(tier):
         for v in (1, 2):
             for comp in (None, "SNAPPY"):
                 pts.append({"kind": "written", "colkind": kind, "v": v, "comp": comp, "route": "R3"})
+    # writer options that change which structures are built / re-serialised
+    for kind in A.ALL_KINDS:
+        for v in (1, 2):
+            for comp in ((None, "SNAPPY") if tier == "thorough" else (None,)):
+                for opt in WRITTEN_OPTS:
+                    pts.append({"kind": "written", "colkind": kind, "v": v, "comp": comp, "route": "R3", "opt": opt})
     return pts
+
+
+WRITTEN_OPTS = ["nostats", "append", "partition", "utf8kv", "partfile"]
 
 
 def explore(run, tier):
@@ -210,13 +311,20 @@ def explore(run, tier):
     run.lattice("written", written_points(tier), "run_written")
     run.lattice("structs", struct_points(I, tier), "run")
     run.lattice("nesting", nesting_points(tier), "run")
-    run.lattice("big", big_points(tier), "run")
+    run.lattice("big", big_points(tier) + agg_points(tier), "run")
+    run.lattice("history", hist_points(tier), "run_hist")
+    run.lattice("history_files", [{"kind": "histfile", "op": op, "route": "R2"} for op in HISTFILE_OPS], "run_histfile")
+    run.lattice("extension", ext_points(tier), "run_ext")
 
 
 def crash_sig(point, res):
-    return {"kind": point.get("kind"), "struct": point.get("struct"), "where": point.get("where"),
-            "route": point.get("route"), "symptom": res["outcome"],
-            "size_class": ">500000" if point.get("n", 0) > 500000 else "<=500000"}
+    s = {"kind": point.get("kind"), "struct": point.get("struct"), "where": point.get("where"),
+         "route": point.get("route"), "symptom": res["outcome"],
+         "size_class": ">500000" if point.get("n", 0) > 500000 else "<=500000"}
+    for k in ("shape", "op", "wire", "opt"):
+        if point.get(k) is not None:
+            s[k] = point[k]
+    return s
 
 
 # ------------------------------------------------------------------ worker side
@@ -251,22 +359,32 @@ def build_value(I, p):
             v["key_value_metadata"][0]["value"] = "v" * n
         elif p["where"] == "path":
             v["row_groups"][0]["columns"][0]["file_path"] = "p" * n
+        elif p["where"] == "kv_value_utf8":
+            v["key_value_metadata"][0]["value"] = "\u4e2d" * (n // 3)
+        elif p["where"] == "col_kv_value":
+            v["row_groups"][0]["columns"][0]["meta_data"]["key_value_metadata"] = [{"key": "ck", "value": "w" * n}]
         else:
             v["created_by"] = "c" * n
+        return "FileMetaData", v
+    if k == "agg":
+        v = fmd_value(I, p["r"], p["c"], 1, name_pad="n" * p["name"])
+        for rg in v["row_groups"]:
+            for ch in rg["columns"]:
+                ch["meta_data"]["statistics"] = {"max": b"M" * p["stat"], "min": b"m" * p["stat"], "null_count": 0}
         return "FileMetaData", v
     raise KeyError(k)
 
 
-def fmd_value(I, r, c, k):
+def fmd_value(I, r, c, k, name_pad=""):
     schema = [{"name": "schema", "num_children": c}]
     for i in range(c):
-        schema.append({"name": "col%d" % i, "type": 2, "repetition_type": 1, "converted_type": None})
+        schema.append({"name": "col%d%s" % (i, name_pad), "type": 2, "repetition_type": 1, "converted_type": None})
         schema[-1] = {a: b for a, b in schema[-1].items() if b is not None}
     rgs = []
     for g in range(r):
         cols = []
         for i in range(c):
-            md = {"type": 2, "encodings": [0, 3], "path_in_schema": ["col%d" % i], "codec": 1,
+            md = {"type": 2, "encodings": [0, 3], "path_in_schema": ["col%d%s" % (i, name_pad)], "codec": 1,
                   "num_values": 10 + g, "total_uncompressed_size": 100, "total_compressed_size": 90,
                   "data_page_offset": 4 + 1000 * (g * c + i),
                   "statistics": {"max": b"\x09\0\0\0\0\0\0\0", "min": b"\0\0\0\0\0\0\0\0", "null_count": g},
@@ -334,19 +452,28 @@ def from_fp(I, typ, v, problems, where):
     return v
 
 
-def build_r1(I, sname, v):
-    """Construct through ThriftObject.from_fields exactly as the writer does."""
+def build_r1(I, sname, v, explicit_none=False, as_bytes=False):
+    """Construct through ThriftObject.from_fields exactly as the writer does.
+    explicit_none: absent fields are passed as None (crc=None, file_path=None ... in the writer);
+    as_bytes: True: every string field is passed as bytes (name=b'schema', key=b'pandas' ... in the writer);
+    "all": also the elements of string lists."""
     from fastparquet.cencoding import ThriftObject
     spec = I["structs"][sname]
     kwargs = {}
     for fid, (fn, req, typ) in spec["fields"].items():
         if fn not in v or v[fn] is None:
+            if explicit_none:
+                kwargs[fn] = None
             continue
         val = v[fn]
         if typ.startswith("list<") and typ[5:-1] in I["structs"]:
-            val = [build_r1(I, typ[5:-1], x) for x in val]
+            val = [build_r1(I, typ[5:-1], x, explicit_none, as_bytes) for x in val]
         elif typ in I["structs"]:
-            val = build_r1(I, typ, val)
+            val = build_r1(I, typ, val, explicit_none, as_bytes)
+        elif as_bytes and typ == "string":
+            val = val.encode("utf8") if isinstance(val, str) else val
+        elif as_bytes == "all" and typ == "list<string>":
+            val = [x.encode("utf8") if isinstance(x, str) else x for x in val]
         kwargs[fn] = val
     kind, ids = MARKERS.get(sname, (None, None))
     if kind == "i32":
@@ -389,62 +516,98 @@ def r1_filter(I, sname, v):
 SPECLESS = set()   # filled lazily: structs fastparquet's specs table does not know
 
 
-def run(p):
-    import pickle
-    import numpy as np
-    from fastparquet import cencoding as ce
-    from mc.specpq.thrift import codec, ThriftError
-    I = idl()
-    tc = codec()
-    sname, v = build_value(I, p)
-    route = p["route"]
-    sig = {"struct": sname, "route": route, "kind": p["kind"]}
-    if p["kind"] in ("special", "union"):
-        sig["field"] = p.get("field") or p.get("member")
-    if p["kind"] == "big":
-        sig["where"] = p["where"]
-        sig["size_class"] = ">500000" if p["n"] > 500000 else "<=500000"
-
+def _mkbad(sig):
     def bad(symptom, detail, **extra):
         s = dict(sig)
         s["symptom"] = symptom
         s.update(extra)
         return {"ok": False, "outcome": symptom, "nontrivial": True, "sig": s, "detail": detail}
+    return bad
 
-    if route == "R1":
-        try:
-            ce.ThriftObject(sname, {})
-        except KeyError:
-            return {"ok": True, "outcome": "not_constructible_r1", "nontrivial": False}
-        v = r1_filter(I, sname, v)
-        if v is None:
-            return {"ok": True, "outcome": "outside_r1_domain", "nontrivial": False}
-        try:
-            x = build_r1(I, sname, v)
-        except KeyError as e:
-            return {"ok": True, "outcome": "not_constructible_r1", "nontrivial": False, "detail": str(e)}
+
+def _flip(I, typ, val):
+    """a value of the same type that differs from val (None: no such value can be derived)"""
+    if typ == "bool":
+        return not val
+    if typ in INTW or typ in I["enums"]:
+        return val ^ 1
+    if typ in ("string", "binary"):
+        return val + ("x" if isinstance(val, str) else b"x")
+    if typ.startswith("list<"):
+        if not val:
+            return None
+        e = _flip(I, typ[5:-1], val[-1])
+        return None if e is None else list(val[:-1]) + [e]
+    if typ in I["structs"]:
+        for fid, (fn, req, t) in sorted(I["structs"][typ]["fields"].items()):
+            if val.get(fn) is not None:
+                e = _flip(I, t, val[fn])
+                if e is not None:
+                    out = dict(val)
+                    out[fn] = e
+                    return out
+    return None
+
+
+def neighbours(I, sname, v):
+    """values that differ from v in exactly one place: per present top-level field one changed leaf, one list
+    shortened by an element, one optional field removed"""
+    spec = I["structs"][sname]
+    out = []
+    for fid, (fn, req, typ) in sorted(spec["fields"].items()):
+        if v.get(fn) is None:
+            continue
+        e = _flip(I, typ, v[fn])
+        if e is not None:
+            nb = dict(v)
+            nb[fn] = e
+            out.append(("changed " + fn, nb))
+        if typ.startswith("list<") and v[fn]:
+            nb = dict(v)
+            nb[fn] = list(v[fn][:-1])
+            out.append(("shorter " + fn, nb))
+        if req != "required" and not spec["union"]:
+            nb = dict(v)
+            del nb[fn]
+            out.append(("without " + fn, nb))
+    return out
+
+
+def _as_bytes(route):
+    return {"R1b": "all", "R1s": True}.get(route, False)
+
+
+def _build(I, tc, ce, np, sname, v, route):
+    if route in ("R1", "R1b", "R1s"):
+        return build_r1(I, sname, v, as_bytes=_as_bytes(route))
+    buf = np.frombuffer(tc.encode(sname, v), dtype=np.uint8).copy()
+    return ce.ThriftObject(sname, ce.from_buffer(buf))
+
+
+def _has_string_list(I, typ, v):
+    if typ.startswith("list<"):
+        return (typ == "list<string>" and bool(v)) or any(_has_string_list(I, typ[5:-1], e) for e in v)
+    if typ in I["structs"]:
+        return any(_has_string_list(I, t, v[fn]) for fid, (fn, req, t) in I["structs"][typ]["fields"].items()
+                   if v.get(fn) is not None)
+    return False
+
+
+def check_object(I, tc, sname, x, v, route, bad, big=False, extras=True, mutated=False):
+    """x: the ThriftObject under test, v: the value it must stand for (name-keyed plain dict).
+    Serialises x and applies every oracle; returns the cell result."""
+    import copy
+    import pickle
+    import numpy as np
+    from fastparquet import cencoding as ce
+    from mc.specpq.thrift import ThriftError
     want = canon(I, sname, v)
     spec_bytes = tc.encode(sname, v)
-    if route == "R2":
-        buf = np.frombuffer(spec_bytes, dtype=np.uint8).copy()
-        try:
-            x = ce.ThriftObject(sname, ce.from_buffer(buf)) if _has_spec(ce, sname) else None
-            raw = ce.from_buffer(np.frombuffer(spec_bytes, dtype=np.uint8).copy()) if x is None else None
-        except Exception as e:
-            return bad("parse_raised", "from_buffer raised %s: %s" % (type(e).__name__, e))
-        if x is None:
-            # struct unknown to fastparquet's tables: only reachable nested inside a known parent
-            return {"ok": True, "outcome": "no_standalone_api", "nontrivial": False}
-        probs = []
-        parsed = from_fp(I, sname, x.contents, probs, sname)
-        if probs or parsed != want:
-            return bad("parse_wrong", "from_buffer(spec bytes) != value: %s" % (probs or _diff(want, parsed)),
-                       **_field_of(want, parsed))
     # ---- serialise
     try:
         y = bytes(x.to_bytes())
     except Exception as e:
-        if p["kind"] == "big":
+        if big:
             return {"ok": True, "outcome": "refused_too_large", "nontrivial": True,
                     "detail": "%s: %s" % (type(e).__name__, e)}
         return bad("to_bytes_raised", "%s: %s" % (type(e).__name__, e))
@@ -463,16 +626,24 @@ def run(p):
         return bad("length_differs", "to_bytes() is %d bytes, the spec encoding %d" % (len(y), len(spec_bytes)))
     # (1) own parser round trip, deep comparison and ==
     try:
-        z = ce.ThriftObject(sname, ce.from_buffer(np.frombuffer(y, dtype=np.uint8).copy()))
+        zio = ce.NumpyIO(np.frombuffer(y + b"\xAA" * 8 + bytes(64), dtype=np.uint8).copy())
+        z = ce.ThriftObject(sname, ce.from_buffer(zio))
     except Exception as e:
         return bad("reparse_raised", "%s: %s" % (type(e).__name__, e))
+    if zio.tell() != len(y):
+        return bad("parse_consumed", "from_buffer(to_bytes(x)) consumed %d of %d bytes" % (zio.tell(), len(y)))
     probs = []
     zz = from_fp(I, sname, z.contents, probs, sname)
     if probs or zz != want:
         return bad("roundtrip_differs", "from_buffer(to_bytes(x)) != x: %s" % (probs or _diff(want, zz)), **_field_of(want, zz))
     # ThriftObject.__eq__ tolerates str-vs-bytes only with the str on the left: accept either direction
-    if not (z == x or x == z):
+    if route == "R1b" and _has_string_list(I, sname, v):
+        pass    # string lists are parsed to str elements, which == does not equate with bytes elements
+    elif not (z == x or x == z):
         return bad("eq_false", "from_buffer(to_bytes(x)) == x is False in both directions")
+    if route.startswith("R2") and not mutated and not (z == x and x == z and not (z != x) and not (x != z)):
+        # both sides were parsed (bytes everywhere): the documented one-sided tolerance is not needed
+        return bad("eq_false", "parsed x and from_buffer(to_bytes(x)): == is not True in both directions / != is True")
     # pickle
     try:
         pk = pickle.loads(pickle.dumps(x))
@@ -482,8 +653,410 @@ def run(p):
             return bad("pickle_differs", "pickle round trip: %s" % (probs or _diff(want, pp)), **_field_of(want, pp))
     except Exception as e:
         return bad("pickle_raised", "%s: %s" % (type(e).__name__, e))
-    return {"ok": True, "outcome": "lossless", "nontrivial": bool(want),
-            "counts": {"bytes": len(y), "tolerated_empty_list_type0": tc.deviations.get("empty_list_type0", 0)}}
+    counts = {"bytes": len(y), "tolerated_empty_list_type0": tc.deviations.get("empty_list_type0", 0)}
+    if big or not extras:
+        return {"ok": True, "outcome": "lossless", "nontrivial": bool(want), "counts": counts}
+    # ---- copies serialise identically and are equal; a deep copy is independent of the original
+    for how, fn in (("copy", copy.copy), ("deepcopy", copy.deepcopy), ("method_copy", lambda o: o.copy())):
+        try:
+            cp = fn(x)
+            if cp.thrift_name != sname or bytes(cp.to_bytes()) != y:
+                return bad("copy_differs", "%s(x) serialises differently from x" % how, how=how)
+            if not (cp == x and x == cp):
+                return bad("copy_differs", "%s(x) == x is False" % how, how=how)
+        except Exception as e:
+            return bad("copy_raised", "%s: %s: %s" % (how, type(e).__name__, e), how=how)
+    dc = copy.deepcopy(x)
+    _scramble(dc.contents)
+    if bytes(x.to_bytes()) != y:
+        return bad("copy_differs", "changing deepcopy(x) in place changed x", how="deepcopy_shared")
+    # ---- inequality: every value that differs in one place must compare unequal, in both directions
+    nneg = 0
+    for label, nb in neighbours(I, sname, v):
+        if canon(I, sname, nb) == want:
+            continue
+        try:
+            o = _build(I, tc, ce, np, sname, nb, route)
+        except Exception as e:
+            return bad("harness_neighbour", "cannot build the neighbour value (%s): %s: %s" % (label, type(e).__name__, e))
+        nneg += 1
+        if (x == o) or (o == x) or not (x != o) or not (o != x):
+            return bad("eq_true_for_different", "x == (x with %s) is True (or != is False) in some direction: "
+                       "x==o %r, o==x %r, x!=o %r, o!=x %r" % (label, x == o, o == x, x != o, o != x),
+                       at=label.split()[0])
+    counts["unequal_pairs"] = nneg
+    # ---- None for an absent field is the same structure as leaving it out (R1: the writer passes crc=None ...)
+    if route in ("R1", "R1b"):
+        try:
+            xn = build_r1(I, sname, v, explicit_none=True, as_bytes=_as_bytes(route))
+            if bytes(xn.to_bytes()) != y:
+                return bad("none_differs", "fields given as None change the serialisation")
+            if not (xn == x and x == xn):
+                return bad("none_differs", "x with absent fields given as None == x is False")
+        except Exception as e:
+            return bad("none_raised", "%s: %s" % (type(e).__name__, e))
+    return {"ok": True, "outcome": "lossless", "nontrivial": bool(want), "counts": counts}
+
+
+def _scramble(d):
+    """change every value of a contents dict in place (recursively)"""
+    for k in list(d):
+        val = d[k]
+        if isinstance(val, dict):
+            _scramble(val)
+        elif isinstance(val, list):
+            for e in val:
+                if isinstance(e, dict):
+                    _scramble(e)
+            val.append(0)
+        elif isinstance(k, int):
+            d[k] = None
+
+
+def run(p):
+    import numpy as np
+    from fastparquet import cencoding as ce
+    from mc.specpq.thrift import codec
+    I = idl()
+    tc = codec()
+    sname, v = build_value(I, p)
+    route = p["route"]
+    sig = {"struct": sname, "route": route, "kind": p["kind"]}
+    if p["kind"] in ("special", "union"):
+        sig["field"] = p.get("field") or p.get("member")
+    if p["kind"] == "big":
+        sig["where"] = p["where"]
+        sig["size_class"] = ">500000" if p["n"] > 500000 else "<=500000"
+    if p["kind"] == "agg":
+        sig["shape"] = p["shape"]
+    bad = _mkbad(sig)
+
+    if route in ("R1", "R1b"):
+        try:
+            ce.ThriftObject(sname, {})
+        except KeyError:
+            return {"ok": True, "outcome": "not_constructible_r1", "nontrivial": False}
+        v = r1_filter(I, sname, v)
+        if v is None:
+            return {"ok": True, "outcome": "outside_r1_domain", "nontrivial": False}
+        try:
+            x = build_r1(I, sname, v, as_bytes=_as_bytes(route))
+        except KeyError as e:
+            return {"ok": True, "outcome": "not_constructible_r1", "nontrivial": False, "detail": str(e)}
+    want = canon(I, sname, v)
+    if route in ("R2", "R2l", "R2L"):
+        # the bytes a foreign writer may produce: canonical, or with long-form list / field headers
+        spec_in = tc.encode(sname, v, long_fields=route == "R2L", long_lists=route == "R2l")
+        # R2L: a parser that loses its place must run into stop bytes, not into whatever follows on the heap
+        buf = np.frombuffer(spec_in + (bytes(1 << 16) if route == "R2L" else b""), dtype=np.uint8).copy()
+        if not _has_spec(ce, sname):
+            # struct unknown to fastparquet's tables: only reachable nested inside a known parent
+            return {"ok": True, "outcome": "no_standalone_api", "nontrivial": False}
+        try:
+            x = ce.ThriftObject(sname, ce.from_buffer(buf))
+        except Exception as e:
+            return bad("parse_raised", "from_buffer raised %s: %s" % (type(e).__name__, e))
+        probs = []
+        parsed = from_fp(I, sname, x.contents, probs, sname)
+        if probs or parsed != want:
+            return bad("parse_wrong", "from_buffer(spec bytes) != value: %s" % (probs or _diff(want, parsed)),
+                       **_field_of(want, parsed))
+        # the same struct inside a larger buffer, read from a NumpyIO positioned on it (page headers are read
+        # that way): same value, and the position afterwards is the end of the struct
+        pre = b"\x15\x02\x19\x00"
+        try:
+            nio = ce.NumpyIO(np.frombuffer(pre + spec_in + b"\x15\x04" * 4 + bytes(64), dtype=np.uint8).copy())
+            nio.seek(len(pre))
+            d2 = ce.from_buffer(nio)
+            pos = nio.tell()
+            x3 = ce.from_buffer(bytes(spec_in), sname)          # read-only bytes input, name given
+        except Exception as e:
+            return bad("parse_raised", "from_buffer(NumpyIO at offset / bytes) raised %s: %s" % (type(e).__name__, e))
+        if pos != len(pre) + len(spec_in):
+            return bad("parse_consumed", "from_buffer consumed %d bytes of a %d-byte struct" % (pos - len(pre), len(spec_in)))
+        for what, d in (("NumpyIO at offset", d2), ("bytes input", x3.contents)):
+            probs = []
+            if probs or from_fp(I, sname, d, probs, sname) != want:
+                return bad("parse_wrong", "from_buffer(%s) != value" % what, at=what.split()[0])
+    return check_object(I, tc, sname, x, v, route, bad, big=p["kind"] in ("big", "agg"))
+
+
+# ------------------------------------------------------------------ history
+def foreign_fmd(I, r, c, k):
+    """fmd_value plus fields that other writers set and fastparquet never does (none of them isolated)"""
+    v = fmd_value(I, r, c, k)
+    v["column_orders"] = [{"TYPE_ORDER": {}} for _ in range(c)]
+    for g, rg in enumerate(v["row_groups"]):
+        rg["sorting_columns"] = [{"column_idx": 0, "descending": False, "nulls_first": True}]
+        rg["file_offset"] = 4 + 1000 * g * c
+        rg["total_compressed_size"] = 90 * c
+        for i, ch in enumerate(rg["columns"]):
+            ch["offset_index_offset"] = 5000000000 + i
+            ch["offset_index_length"] = 77
+            ch["column_index_offset"] = 6000000000 + i
+            ch["column_index_length"] = 33
+            md = ch["meta_data"]
+            md["dictionary_page_offset"] = md["data_page_offset"] - 1
+            md["key_value_metadata"] = [{"key": "ck", "value": "cv%d" % i}]
+            md["statistics"].update({"distinct_count": 3, "max_value": b"\x09\0\0\0\0\0\0\0",
+                                     "min_value": b"\0\0\0\0\0\0\0\0"})
+    return v
+
+
+def apply_history(I, op, x, v, route):
+    """perform op on the ThriftObject x through the public attribute API and on the plain value v; -> (x, v)"""
+    import copy
+    if op == "copy":
+        return copy.copy(x), v
+    if op == "deepcopy":
+        return copy.deepcopy(x), v
+    if op == "sub_rgs":                      # api.ParquetFile row-group selection / remove_row_groups
+        x = copy.copy(x)
+        x.row_groups = x.row_groups[:1]
+        x.num_rows = sum(rg.num_rows for rg in x.row_groups)
+        v["row_groups"] = v["row_groups"][:1]
+        v["num_rows"] = sum(rg["num_rows"] for rg in v["row_groups"])
+        return x, v
+    if op == "file_path_copy":               # util.metadata_from_many, legacy path
+        fmd = copy.copy(x)
+        rgs = []
+        for rg in x.row_groups:
+            rg = copy.copy(rg)
+            rg.columns = [copy.copy(ch) for ch in rg.columns]
+            for ch in rg.columns:
+                fp = ch.file_path
+                ch.file_path = "/".join(["dé", fp if isinstance(fp, str) else fp.decode()])
+            rgs.append(rg)
+        fmd.row_groups = rgs
+        fmd.num_rows = sum(rg.num_rows for rg in fmd.row_groups)
+        for rg in v["row_groups"]:
+            for ch in rg["columns"]:
+                ch["file_path"] = "dé/" + ch["file_path"]
+        return fmd, v
+    if op == "file_path_alias":              # util.metadata_from_many, ParquetFile path: in place through wrappers
+        for rg in x.row_groups:
+            rg.columns[0].file_path = "other.parquet"
+        for rg in v["row_groups"]:
+            rg["columns"][0]["file_path"] = "other.parquet"
+        return x, v
+    if op == "kv_update":                    # util.update_custom_metadata (update_file_custom_metadata)
+        from fastparquet.util import update_custom_metadata
+        update_custom_metadata(x, {"key0": "néw", "key1": None, "added": b"\x00\xffraw", "absent": None})
+        kv = [dict(e) for e in v.get("key_value_metadata") or []]
+        kv = [e for e in kv if e["key"] != "key1"]
+        if not any(e["key"] == "key0" for e in kv):
+            kv.append({"key": "key0", "value": None})
+        for e in kv:
+            if e["key"] == "key0":
+                e["value"] = "néw"
+        kv.append({"key": "added", "value": b"\x00\xffraw"})
+        v["key_value_metadata"] = kv
+        return x, v
+    if op == "append_r1":                    # append: parsed row groups followed by freshly built ones
+        g = len(v["row_groups"])
+        extra = fmd_value(I, g + 1, len(v["schema"]) - 1, 0)["row_groups"][-1]
+        x.row_groups = x.row_groups + [build_r1(I, "RowGroup", extra)]
+        x.num_rows = sum(rg.num_rows for rg in x.row_groups)
+        v["row_groups"] = v["row_groups"] + [extra]
+        v["num_rows"] = sum(rg["num_rows"] for rg in v["row_groups"])
+        return x, v
+    if op == "set_schema":                   # util.metadata_from_many: pf0.fmd.schema = v.schema
+        x.schema = x.schema
+        x.key_value_metadata = x.key_value_metadata or []
+        if not v.get("key_value_metadata"):
+            v["key_value_metadata"] = []
+        return x, v
+    if op == "del_created_by":
+        del x.created_by
+        del v["created_by"]
+        return x, v
+    if op == "none_created_by":
+        x.created_by = None
+        del v["created_by"]
+        return x, v
+    raise KeyError(op)
+
+
+def run_hist(p):
+    import copy
+    import numpy as np
+    from fastparquet import cencoding as ce
+    from mc.specpq.thrift import codec
+    I = idl()
+    tc = codec()
+    route = p["route"]
+    bad = _mkbad({"kind": "hist", "op": p["op"], "route": route, "struct": "FileMetaData"})
+    v = foreign_fmd(I, p["r"], p["c"], p["k"])
+    if route == "R1":
+        v = r1_filter(I, "FileMetaData", v)
+    try:
+        # R1: strings as bytes, like make_metadata / update_custom_metadata build them
+        x = _build(I, tc, ce, np, "FileMetaData", v, "R1s" if route == "R1" else "R2")
+        before = bytes(x.to_bytes())
+        x2, v2 = apply_history(I, p["op"], x, copy.deepcopy(v), route)
+    except Exception as e:
+        return bad("history_raised", "%s: %s" % (type(e).__name__, e))
+    res = check_object(I, tc, "FileMetaData", x2, v2, route, bad, extras=False, mutated=True)
+    if res["ok"] and p["op"] in ("copy", "deepcopy", "sub_rgs", "file_path_copy"):
+        # these work on copies: the original must still serialise as before
+        if bytes(x.to_bytes()) != before:
+            return bad("original_changed", "%s changed the structure it was applied to" % p["op"])
+    return res
+
+
+HISTFILE_OPS = ["update_kv_file", "update_kv_metadata_file", "merge_two"]
+
+
+def _foreign_file(I, tc, rows, kv):
+    """a file as another writer would produce it: specpq pages and a footer with fields fastparquet never writes"""
+    import struct
+    from mc.specpq import writer as W
+    spec = {"created_by": "other-writer 1.0", "kv": kv,
+            "columns": [{"name": "a", "ptype": 2, "type_length": None, "rep": "required", "ct": None, "lt": None,
+                         "scale": None, "precision": None, "nested": None},
+                        {"name": "s", "ptype": 6, "type_length": None, "rep": "optional", "ct": 0, "lt": None,
+                         "scale": None, "precision": None, "nested": None}],
+            "row_groups": [{"a": {"rows": rows[:2], "pages": None, "codec": 0, "dictionary": None, "stats": None},
+                            "s": {"rows": [b"x", None], "pages": None, "codec": 0, "dictionary": None, "stats": None}},
+                           {"a": {"rows": rows[2:], "pages": None, "codec": 0, "dictionary": None, "stats": None},
+                            "s": {"rows": [None] * len(rows[2:]), "pages": None, "codec": 0, "dictionary": None,
+                                  "stats": None}}]}
+    data = W.write_file(spec)
+    flen = struct.unpack("<I", data[-8:-4])[0]
+    start = len(data) - 8 - flen
+    fmd, _ = tc.decode("FileMetaData", data, start, strict=True)
+    fmd["column_orders"] = [{"TYPE_ORDER": {}}, {"TYPE_ORDER": {}}]
+    for g, rg in enumerate(fmd["row_groups"]):
+        rg["sorting_columns"] = [{"column_idx": 0, "descending": True, "nulls_first": False}]
+        rg["file_offset"] = rg["columns"][0]["meta_data"]["data_page_offset"]
+        rg["total_compressed_size"] = sum(c["meta_data"]["total_compressed_size"] for c in rg["columns"])
+        for c in rg["columns"]:
+            c["meta_data"].setdefault("statistics", {})["distinct_count"] = 2
+            c["offset_index_offset"] = 5000000000
+            c["offset_index_length"] = 77
+    fb = tc.encode("FileMetaData", fmd)
+    return data[:start] + fb + struct.pack("<I", len(fb)) + data[-4:], fmd
+
+
+def run_histfile(p):
+    """the library's own entry points for re-serialising foreign metadata, on files"""
+    import copy
+    import os
+    import struct
+    import fastparquet
+    from fastparquet import writer as fw
+    from mc.scratch import scratch
+    from mc.specpq import file as F
+    from mc.specpq.thrift import codec
+    I = idl()
+    tc = codec()
+    bad = _mkbad({"kind": "histfile", "op": p["op"], "route": "R2", "struct": "FileMetaData"})
+    d = scratch()
+    kv = [("key0", "value0"), ("key1", "value1")]
+    data, fmd = _foreign_file(I, tc, [1, 2, 3, 4, 5], kv)
+    try:
+        if p["op"] in ("update_kv_file", "update_kv_metadata_file"):
+            meta = p["op"] == "update_kv_metadata_file"
+            path = os.path.join(d, "_metadata" if meta else "f.parquet")
+            if meta:
+                fb = tc.encode("FileMetaData", fmd)
+                data = b"PAR1" + fb + struct.pack("<I", len(fb)) + b"PAR1"
+            open(path, "wb").write(data)
+            fw.update_file_custom_metadata(path, {"key0": "néw", "key1": None, "added": "v"})
+            out = open(path, "rb").read()
+            want = copy.deepcopy(fmd)
+            want["key_value_metadata"] = [{"key": "key0", "value": "néw"}, {"key": "added", "value": "v"}]
+            got = (F.read_footer(out) if meta else F.read_file(out))
+            if not meta and got.errors:
+                return bad("file_invalid", "after update_file_custom_metadata: %s" % got.errors[0])
+            if not meta and out[:got.footer_start] != data[:got.footer_start]:
+                return bad("data_changed", "update_file_custom_metadata changed bytes before the footer")
+        else:
+            data2, fmd2 = _foreign_file(I, tc, [6, 7, 8], kv)
+            paths = [os.path.join(d, "part.0.parquet"), os.path.join(d, "part.1.parquet")]
+            open(paths[0], "wb").write(data)
+            open(paths[1], "wb").write(data2)
+            fw.merge(paths)
+            out = open(os.path.join(d, "_metadata"), "rb").read()
+            want = copy.deepcopy(fmd)
+            want["row_groups"] = copy.deepcopy(fmd["row_groups"]) + copy.deepcopy(fmd2["row_groups"])
+            for i, rg in enumerate(want["row_groups"]):
+                for c in rg["columns"]:
+                    c["file_path"] = "part.%d.parquet" % (0 if i < len(fmd["row_groups"]) else 1)
+            want["num_rows"] = fmd["num_rows"] + fmd2["num_rows"]
+            got = F.read_footer(out)
+    except F.FormatError as e:
+        return bad("not_idl_conformant" if "does not follow the IDL" in str(e) else "file_invalid", str(e),
+                   **_idl_field(str(e).split("IDL: ")[-1]))
+    except Exception as e:
+        return bad("history_raised", "%s: %s" % (type(e).__name__, e))
+    a, b = canon(I, "FileMetaData", want), canon(I, "FileMetaData", got.fmd)
+    if a != b:
+        return bad("lossy", "footer after %s: %s" % (p["op"], _diff(a, b)), **_field_of(a, b))
+    return {"ok": True, "outcome": "lossless", "nontrivial": True}
+
+
+# ------------------------------------------------------------------ fields of newer IDL versions
+def _ext_payload(w):
+    """-> (compact wire type, payload bytes) of an unknown field"""
+    import struct
+    from mc.specpq.thrift import uvarint, zigzag
+    d = struct.pack("<d", 1.5)
+    return {
+        "i64": (6, uvarint(zigzag(1 << 40))),
+        "i16": (4, uvarint(zigzag(-300))),
+        "i8_neg": (3, b"\xff"),
+        "double": (7, d),
+        "binary": (8, b"\x03\x00\xff\x00"),
+        "struct": (12, b"\x16\x02\x18\x01z\x00"),
+        "list_i64": (9, b"\x26" + uvarint(zigzag(5)) + uvarint(zigzag(1 << 40))),
+        "list_binary_nonutf8": (9, b"\x18\x02\xff\xfe"),
+        "list_struct": (9, b"\x2c\x16\x02\x00\x00"),
+        "list_bool": (9, b"\x31\x01\x02\x01"),
+        "list_double": (9, b"\x27" + d + d),
+        "list_i8": (9, b"\x33\x01\x00\xff"),
+        "list_list": (9, b"\x29\x15\x02\x25\x04\x06"),
+        "set_i32": (10, b"\x25\x02\x04"),
+        "map_empty": (11, b"\x00"),
+        "map_i32_binary": (11, b"\x01\x58\x02\x01q"),
+    }[w]
+
+
+def run_ext(p):
+    import numpy as np
+    from fastparquet import cencoding as ce
+    from mc.specpq.thrift import codec
+    tc = codec()
+    bad = _mkbad({"kind": "ext", "wire": p["wire"], "route": "R2", "struct": "FileMetaData"})
+    ct, payload = _ext_payload(p["wire"])
+    uid = p["uid"]
+
+    def se(name, nchild):
+        # SchemaElement: name (4), num_children (5), unknown field uid, nothing else
+        return b"\x48" + bytes([len(name)]) + name + b"\x15" + bytes([nchild * 2]) + bytes([((uid - 5) << 4) | ct]) + payload + b"\x00"
+    # FileMetaData: version, schema [root, leaf], num_rows, row_groups [], created_by
+    raw = (b"\x15\x02" + b"\x19\x2c" + se(b"schema", 1) + se(b"leaf", 0) + b"\x16\x0e" + b"\x19\x0c" + b"\x28\x02cb" + b"\x00")
+    # the spec reader, not strict about unknown ids, defines what the known fields are
+    ref, end = tc.decode("FileMetaData", raw, 0, strict=False)
+    if end != len(raw) or ref["num_rows"] != 7 or [e["name"] for e in ref["schema"]] != ["schema", "leaf"]:
+        return {"ok": False, "outcome": "harness_error", "nontrivial": True, "detail": "ext bytes are not what was meant: %r" % (ref,)}
+    try:
+        nio = ce.NumpyIO(np.frombuffer(raw + b"\xAA" * 8 + bytes(64), dtype=np.uint8).copy())
+        d = ce.from_buffer(nio)
+    except Exception as e:
+        return bad("parse_raised", "%s: %s" % (type(e).__name__, e))
+    known = {}
+    try:
+        known = {"version": d.get(1), "num_rows": d.get(3), "created_by": d.get(6), "row_groups": d.get(4),
+                 "names": [e.get(4) for e in d.get(2)], "children": [e.get(5) for e in d.get(2)]}
+    except Exception as e:
+        return bad("parse_wrong", "known fields around an unknown %s field: %s: %s in %r" % (p["wire"], type(e).__name__, e, d))
+    exp = {"version": 1, "num_rows": 7, "created_by": b"cb", "row_groups": [], "names": [b"schema", b"leaf"],
+           "children": [1, 0]}
+    if known != exp or nio.tell() != len(raw):
+        return bad("parse_wrong", "known fields around an unknown %s field (id %d): expected %r got %r, consumed %d of %d"
+                   % (p["wire"], uid, exp, known, nio.tell(), len(raw)))
+    return {"ok": True, "outcome": "skipped_unknown", "nontrivial": True}
 
 
 def run_written(p):
@@ -491,43 +1064,119 @@ def run_written(p):
     import re
     import pandas as pd
     import fastparquet
+    from fastparquet import writer as fw
     from mc import alphabets as A, wr
     from mc.scratch import scratch
     from mc.specpq import file as F
     kind = p["colkind"]
+    opt = p.get("opt", "base")
     d = scratch()
     errs = {}
+    other = {}
     files = 0
+    compared = 0
     for pat in (["none", "alt"] if kind in A.NULLABLE_KINDS else ["none"]):
         for scheme in ("simple", "hive"):
+            if opt == "partition" and scheme == "simple":
+                continue
+            if opt == "partfile" and scheme == "hive":
+                continue
             df = pd.DataFrame({"c": A.series(kind, 9, pat), "k": A.series("int64", 9, "none", 1, "k")})
-            path = os.path.join(d, "w.parquet" if scheme == "simple" else "wds")
+            if opt == "partition":
+                df["g"] = [0, 1, 0, 1, 0, 1, 0, 1, 0]
+            path = os.path.join(d, ("w-%s.parquet" if scheme == "simple" else "wds-%s") % pat)
+            cm = {"k": "v"}
+            if opt == "utf8kv":
+                cm = {"k": "é中" * 100, "ké": "v", "b": b"\x00\xff"}
+            kw = dict(compression=p["comp"], file_scheme=scheme, row_group_offsets=[0, 5], write_index=False,
+                      custom_metadata=cm, stats=(False if opt == "nostats" else True))
+            if opt == "partition":
+                kw["partition_on"] = ["g"]
+            nrows = len(df)
             try:
                 with wr.PageCfg(p["v"], wr.tiny_page_size(df, 4)):
-                    fastparquet.write(path, df, compression=p["comp"], file_scheme=scheme, row_group_offsets=[0, 5],
-                                      write_index=False, custom_metadata={"k": "v"}, stats=True)
-            except Exception:
+                    if opt == "partfile":
+                        # the public helper dask uses; without fmd it builds its own FileMetaData
+                        fmd = fw.make_metadata(df, index_cols=[], object_encoding="infer")
+                        part = fw.make_part_file(open(path, "wb"), df, fmd.schema, compression=p["comp"], fmd=None)
+                        cm = None
+                    else:
+                        fastparquet.write(path, df, **kw)
+                        if opt == "append":
+                            fastparquet.write(path, df, append=True, **kw)
+                            nrows = 2 * len(df)
+            except Exception as e:
+                # a structure the writer built could not be serialised (or the write failed earlier): never silent
+                other.setdefault("write_raised", "%s %s nulls=%s opt=%s: %s: %s" % (kind, scheme, pat, opt, type(e).__name__, e))
                 continue
             for f in wr.listing(path):
                 files += 1
                 data = open(f, "rb").read()
+                base = os.path.basename(f)
                 try:
-                    if os.path.basename(f) in ("_metadata", "_common_metadata"):
-                        F.read_footer(data)
+                    if base in ("_metadata", "_common_metadata"):
+                        pr = F.read_footer(data)
                     else:
-                        F.read_file(data)
+                        pr = F.read_file(data)
+                        if pr.errors:
+                            other.setdefault("file_invalid", "%s %s nulls=%s: %s" % (kind, base, pat, pr.errors[0]))
                 except F.FormatError as e:
                     m = re.search(r"does not follow the IDL: (\w+)\.(\w+)", str(e)) or re.search(r"does not follow the IDL: (\w+): (.{0,30})", str(e))
                     if m:
                         at = "%s.%s" % (m.group(1), m.group(2))
                         errs.setdefault(at, "%s %s nulls=%s: %s" % (kind, os.path.basename(f), pat, e))
+                    elif "footer" in str(e) or "magic" in str(e) or "IDL" in str(e):
+                        # truncated / over-long footer, page header that cannot be decoded
+                        other.setdefault("footer_invalid", "%s %s nulls=%s: %s" % (kind, base, pat, e))
+                    continue
                 except Exception:
-                    pass
-    if errs:
-        sigs = [{"kind": "written", "route": "R3", "symptom": "not_idl_conformant", "at": at, "v": p["v"]} for at in errs]
-        return {"ok": False, "outcome": "not_idl_conformant", "nontrivial": True, "sig": sigs,
-                "detail": list(errs.values())[0], "counts": {"files": files}}
-    return {"ok": True, "outcome": "idl_conformant", "nontrivial": files > 0, "counts": {"files": files}}
+                    continue
+                # ---- the values the writer put into the structures are the ones in the bytes
+                fm = pr.fmd
+                compared += 1
+                kvs = {(_s(e["key"])): e.get("value") for e in fm.get("key_value_metadata") or []}
+                for key, val in (cm or {}).items():
+                    if key not in kvs or _b(kvs[key]) != _b(val):
+                        other.setdefault("kv_wrong", "%s %s: custom metadata %r came out as %r" % (kind, base, key, kvs.get(key)))
+                if base == "_common_metadata":
+                    if fm["row_groups"]:
+                        other.setdefault("value_wrong", "%s: _common_metadata with row groups" % kind)
+                    continue
+                rows = sum(rg["num_rows"] for rg in fm["row_groups"])
+                if fm["num_rows"] != rows:
+                    other.setdefault("value_wrong", "%s %s: num_rows %d, row groups hold %d" % (kind, base, fm["num_rows"], rows))
+                if base == "_metadata" or scheme == "simple":
+                    if fm["num_rows"] != nrows:
+                        other.setdefault("value_wrong", "%s %s: num_rows %d, %d rows were written" % (kind, base, fm["num_rows"], nrows))
+                for rg in fm["row_groups"]:
+                    for cc in rg["columns"]:
+                        md = cc["meta_data"]
+                        if md["num_values"] != rg["num_rows"]:
+                            other.setdefault("value_wrong", "%s %s: chunk %r num_values %d in a row group of %d rows"
+                                             % (kind, base, md["path_in_schema"], md["num_values"], rg["num_rows"]))
+                        st = md.get("statistics")
+                        if opt == "nostats" and st and (st.get("max") is not None or st.get("min") is not None
+                                                        or st.get("max_value") is not None):
+                            other.setdefault("value_wrong", "%s %s: stats=False but min/max stored" % (kind, base))
+                        if base == "_metadata" and not cc.get("file_path"):
+                            other.setdefault("value_wrong", "%s: _metadata chunk without file_path" % kind)
+    sigs = [{"kind": "written", "route": "R3", "symptom": "not_idl_conformant", "at": at, "v": p["v"]} for at in errs]
+    for sym in other:
+        sigs.append({"kind": "written", "route": "R3", "symptom": sym, "v": p["v"], "opt": opt, "colkind": kind})
+    if sigs:
+        first = list(errs.values())[0] if errs else list(other.values())[0]
+        return {"ok": False, "outcome": sigs[0]["symptom"], "nontrivial": True, "sig": sigs,
+                "detail": first, "counts": {"files": files}}
+    return {"ok": True, "outcome": "idl_conformant", "nontrivial": files > 0,
+            "counts": {"files": files, "footers_compared": compared}}
+
+
+def _s(x):
+    return x if isinstance(x, str) else bytes(x).decode("utf8", "replace")
+
+
+def _b(x):
+    return x.encode("utf8") if isinstance(x, str) else bytes(x)
 
 
 def _has_spec(ce, sname):
@@ -576,9 +1225,12 @@ def _idl_field(msg):
 
 LEVEL_TEXT = ("Bounded-exhaustive lattice over IDL-generated metadata values (every optional-field subset of small "
               "structs, single/pair presence for large ones, boundary list/string/integer values, FileMetaData "
-              "nestings, payloads across the 500000-byte buffer) on two construction routes; each value is "
+              "nestings, payloads across the 500000-byte buffer singly, as non-ASCII text and in aggregate) on the "
+              "construction routes built / parsed (canonical and long-form encodings) / written by the writer under "
+              "its options / changed through the attribute API after parsing; each value is "
               "serialised by the real code and decoded by a strict decoder driven by the IDL text, so symmetric "
-              "errors in fastparquet's own hand-maintained tables are visible.")
+              "errors in fastparquet's own hand-maintained tables are visible; equality is checked in both senses "
+              "(equal after a round trip, unequal for every one-place neighbour).")
 LEVEL_NOTE = ("Trusted: pinned parse of parquet.thrift, specpq compact protocol, CPython pickle. Large payloads "
               "run one per fresh process so heap corruption cannot leak into other points; memory safety proper "
               "is C12's job.")
